@@ -375,6 +375,8 @@ EXTRA_SECTIONS.append(_buildtop_section)
 
 
 STATUS = OUT.parent.parent / ".lake" / "extract_status.json"
+from extract_catalog import section as catalog_section  # M9b / C20
+EXTRA_SECTIONS.append(catalog_section)
 
 
 def main(write: bool = True) -> int:
